@@ -112,7 +112,7 @@ ASSIGN_OPS = {"=", "+=", "-=", "*=", "/=", "%=", "|=", "&=", "^=", "<<=", ">>="}
 
 
 class Function:
-    __slots__ = ("name", "qname", "file", "line", "endline", "static", "params",
+    __slots__ = ("name", "qname", "file", "line", "endline", "static", "hdr", "api", "params",
                  "ret", "blocks", "entry", "exit", "bmap", "tu", "preds", "raw", "variadic")
 
     def __init__(self, raw, tu):
@@ -123,6 +123,8 @@ class Function:
         self.line = raw["line"]
         self.endline = raw.get("endline", raw["line"])
         self.static = raw.get("static", False)
+        self.hdr = raw.get("hdr", False)
+        self.api = raw.get("api", False)
         self.params = raw.get("params", [])
         self.ret = raw.get("ret")
         self.variadic = raw.get("variadic", False)
